@@ -269,8 +269,15 @@ def run_model(cases, timeout=3600):
     return _run_sharded(MODELRUN, "run", cases, timeout=timeout, tag="model")
 
 
+def run_prep(cases, timeout=3600):
+    """{expr} placeholders -> the matcher text the Gallina printer produces (what the real crate is fed)"""
+    if not any("{" in c for c in cases):
+        return cases
+    return _run_sharded(MODELRUN, "prep", cases, timeout=timeout, tag="prep")
+
+
 def run_impl(cases, timeout=3600):
-    return _run_sharded(CVH, "run", cases, timeout=timeout, tag="impl")
+    return _run_sharded(CVH, "run", run_prep(cases), timeout=timeout, tag="impl")
 
 
 def run_pred(cases, impl_out, timeout=3600):
